@@ -504,7 +504,7 @@ impl<'input> Tokenizer<'input> {
     }
 
     fn operator(&mut self, start: Location) -> SpannedToken<'input> {
-        let (end, op) = self.take_while(start, is_operator_byte);
+        let (mut end, op) = self.take_while(start, is_operator_byte);
 
         let token = match op {
             "@" => Token::At,
@@ -517,7 +517,8 @@ impl<'input> Tokenizer<'input> {
             "#" => {
                 // Is this too permissive?
                 self.take_while(start, is_ident_start);
-                let (_, op) = self.take_while(start, is_operator_byte);
+                let (op_end, op) = self.take_while(start, is_operator_byte);
+                end = op_end;
                 Token::Operator(op)
             }
             op => Token::Operator(op),
